@@ -354,9 +354,9 @@ def run(prog, ctx):
                                         show(v), f.id, show(want)), f.id, site["span"])
     # the reserved nibble value (the aux token) is never written as a plain value: a put_raw of `new - cur_min` is reached only
     # when that difference is below the token; by value over (new, cur_min)
-    f4 = C.fn_one(prog, ARRAYS[0], "update")
     tok = prog.consts.get("hll::array4::AUX_TOKEN", {}).get("v", 15)
-    if f4 is not None:
+    import itertools
+    for f4 in C.fns_of(prog, ARRAYS[0]):
         s4 = Sym(prog, f4)
         for b, site in f4.calls():
             if not ((site.get("callee") or "").endswith("Array4::put_raw") and len(site["args"]) == 3):
@@ -364,28 +364,39 @@ def run(prog, ctx):
             v = s4.at(b, "t").operand(site["args"][2])
             if v[0] == "const":
                 continue
+            keys = sorted(formula.top_leaves(v))
+            if not keys or len(keys) > 3:
+                continue
             fp = C.facts_pred(s4, b)
             n_a4 += 1
             verdict, wit = None, ""
             try:
-                verdict = True
                 any_eval = False
-                for cm in (0, 1, 5, 20):
-                    for nv in range(cm, min(cm + 40, 64)):
-                        coupon = (nv << 26) | 3
-                        env = {"@prog": prog, "coupon": coupon, "self.cur_min": cm, "self.lg_config_k": 4, "@fn:get_raw": lambda *a: 0, "@lenient": ("get_raw",)}
-                        holds, n_ev = fp(env)
-                        if n_ev == 0:
-                            continue
-                        any_eval = True
+                verdict = True
+                dom = {}
+                for k_ in keys:
+                    dom[k_] = [(x << 26) | 3 for x in range(0, 48, 1)] if k_ == "coupon" else list(range(0, 48))
+                for vals in itertools.product(*[dom[k_][::(1 if len(keys) <= 2 else 3)] for k_ in keys]):
+                    env = dict(zip(keys, vals))
+                    env.update({"@prog": prog, "self.lg_config_k": 4, "@fn:get_raw": lambda *a: 0, "@lenient": ("get_raw",)})
+                    try:
                         val = formula.evaluate(v, env)
-                        if holds and val >= tok:
-                            verdict, wit = False, "value %d with cur_min %d is stored inline as nibble %d (the aux token is %d)" % (nv, cm, val, tok)
+                    except (formula.Uneval, TypeError):
+                        continue
+                    if not isinstance(val, int) or val < 0:
+                        continue
+                    holds, n_ev = fp(env)
+                    if n_ev == 0:
+                        continue
+                    any_eval = True
+                    if holds and val >= tok:
+                        verdict, wit = False, "in state %s the value %d (>= the aux token %d) is stored inline as a nibble" % ({k_: (x >> 26 if k_ == "coupon" else x) for k_, x in zip(keys, vals)}, val, tok)
+                        break
                 if not any_eval:
                     verdict = None
             except (formula.Uneval, TypeError):
                 verdict = None
-            res.tri(verdict, "C02.A4", "C02.A4|%s|token" % f4.id, "Array4::update: %s" % wit, f4.id, site.get("span"))
+            res.tri(verdict, "C02.A4", "C02.A4|%s|token" % f4.id, "%s: %s" % (f4.id, wit), f4.id, site.get("span"))
     res.rule("C02.A4", n_a4, 2, "nibble encodings `actual - cur_min`")
     # ---------------- C02.E emptiness of the three register arrays, by value: empty <=> every register is zero
     n_e = 0
